@@ -532,20 +532,27 @@ def shrink(case):
         for i in range(len(t)):
             yield dict(case, text=t[:i] + t[i + 1:])
         return
+    # cli runs are expensive (subprocesses): few, coarse candidates
     srcs = case['sources']
     for i in range(len(srcs)):
         if len(srcs) > 1:
             yield dict(case, sources=srcs[:i] + srcs[i + 1:])
+    used = set(srcs) | {case['outfile']}
+    if any(n not in used for n, _ in case['files']):
+        yield dict(case, files=[f for f in case['files'] if f[0] in used])
+    def halves(t):
+        lines = t.split('\n')
+        if len(lines) > 1:
+            h = len(lines) // 2
+            yield '\n'.join(lines[:h])
+            yield '\n'.join(lines[h:])
     for k, (n, t) in enumerate(case['files']):
         if t:
-            lines = t.split('\n')
-            for i in range(len(lines)):
-                nt = '\n'.join(lines[:i] + lines[i + 1:])
+            for nt in halves(t):
                 yield dict(case, files=case['files'][:k] + [[n, nt]] + case['files'][k + 1:])
     if case['stdin'][0] == 'text' and case['stdin'][1]:
-        lines = case['stdin'][1].split('\n')
-        for i in range(len(lines)):
-            yield dict(case, stdin=['text', '\n'.join(lines[:i] + lines[i + 1:])])
+        for nt in halves(case['stdin'][1]):
+            yield dict(case, stdin=['text', nt])
 
 def distribution(cases, obs):
     d = {'kinds': {}, 'cli_runs': 0, 'cli_status': {}, 'cli_end': {}, 'sources_per_case': {}, 'stdin_used': 0,
